@@ -1,2 +1,45 @@
-(* PropsC08.v — C08: reference resolution terminates; cycles are errors, everything else resolves. *)
-From Ucfg Require Import Base ParseInt Consts Field Tree PathOps Merge VarParse Normalize VarEval.
+(* PropsC08.v — C08: reference resolution terminates: cycles are errors, everything else
+   resolves.  Statements only; proofs are in ProofsVarEval.v.
+
+   PARTIAL: proved (for every recursive evaluator dv, hence at every fuel) are that a reference
+   re-entered while it is being evaluated is reported as cyclic AT THAT POINT without any
+   further evaluation, that a resolver knowing the name absorbs the error, and that the names
+   registered while one piece of an expression is evaluated are not visible to the next piece
+   (repeated uses and diamonds are no cycles). NOT proved: that the fuel the model runs with
+   always suffices (termination of the model itself); the correspondence run counts the
+   evaluations the model leaves undecided (verdict 8) and the harness reports a read of the
+   implementation that does not return (XHang / crash replay) as a violation. *)
+From Ucfg Require Import Base ParseInt Consts Field Tree PathOps Merge OTree F64 ParseValue VarParse
+     Normalize Flags Ops VarEval ProofsVarEval.
+
+Theorem c08_reentered_reference_is_cyclic_partial : forall o dv fuel0 root a p sep,
+  act_has (path_str p sep) a = true -> resolve_ref o dv fuel0 root a p sep = (RCyclic, a).
+Proof. exact resolve_ref_reentered_is_cyclic. Qed.
+Print Assumptions c08_reentered_reference_is_cyclic_partial.
+
+Theorem c08_cycle_is_an_error_partial : forall o dv fuel0 root a p sep,
+  act_has (path_str p sep) a = true -> resolve_env o (path_str p sep) = None ->
+  ref_eval o dv fuel0 root a p sep = Err ECyclic "".
+Proof. exact reentered_reference_fails. Qed.
+Print Assumptions c08_cycle_is_an_error_partial.
+
+Theorem c08_resolver_absorbs_cycle_partial : forall o dv fuel0 root a p sep s pc,
+  act_has (path_str p sep) a = true -> resolve_env o (path_str p sep) = Some (s, pc) -> s <> "" ->
+  ref_resolve o dv fuel0 root a p sep
+  = Ok (Some {| l_root := root; l_path := path_str p sep; l_val := VStr s |}, act_mark a).
+Proof. exact reentered_reference_resolver_absorbs. Qed.
+Print Assumptions c08_resolver_absorbs_cycle_partial.
+
+Theorem c08_pieces_do_not_see_each_other_partial : forall A a (r : R A) x a',
+  scoped a r = Ok (x, a') -> forall n, n <> cyc_marker -> act_has n a' = act_has n a.
+Proof. exact @scoped_restores. Qed.
+Print Assumptions c08_pieces_do_not_see_each_other_partial.
+
+Theorem c08_examples :
+  read_string demo_opts 60 demo_root "twice" (-1) = Ok "x-x"
+  /\ read_string demo_opts 60 demo_root "diamond" (-1) = Ok "x1x2"
+  /\ read_string demo_opts 60 demo_root "self" (-1) = Err ECyclic ""
+  /\ read_string demo_opts 60 demo_root "p" (-1) = Err ECyclic ""
+  /\ read_string demo_opts 60 demo_root "saved" (-1) = Ok "dflt".
+Proof. exact demo_reads. Qed.
+Print Assumptions c08_examples.
